@@ -25,6 +25,11 @@ RULE = ("fn 1 = Bytes then GoValue of the produced bytes for (type, length, valu
         "DATETIME at 00:00 and 12:34:56.789 on the dense days, at 12:34:56.789 on month ends of every 5th year; the first and last 1000 ticks of a day and "
         "20000 random ticks (on the tick, just below and at the rounding boundary) on 8 sample days incl. pre-1900; the whole last half tick; 20000 random "
         "microseconds of random days; SHORTDATE for every day 0..65535 x sampled minutes (all 1440 on 3 days); BIGDATETIMEN/BIGTIMEN on the same; "
+        "second-boundary family for every temporal type (SHORTDATE, DATETIMEN(4), DATETIME, DATETIMEN(8), DATE, DATEN, BIGDATETIMEN, TIME, TIMEN, BIGTIMEN): "
+        "hh:mm:59.996/.996666/.996667/.997/.998/.998333/.998333999/.998334/.9985/.999/.999999/.999999999 and seconds 0, 29, 30, 58, 59 (+.999999999) at "
+        "00:00, 00:59, 11:59, 12:00, 12:30, 22:59, 23:00, 23:58, 23:59 on the first/last day of each type's range and the day before (smalldatetime "
+        "1900-01-01/02 .. 2079-06-05/06; datetime 0001-01-01, 1753-01-01, 1899-12-30/31, 9999-12-30/31), about 15000 cases; DECN/NUMN magnitudes at the "
+        "machine-word boundary (+-(2^63-1), 2^63, 2^63+1, 2^64-1, 2^64, 2^64+1, 10^19-1, 10^19, 2^31, 2^32) for precisions 10/19/20/21/38 x scales 0, 1, 4, p/2, p; "
         "fn 2 = GoValue of arbitrary bytes (all type codes x lengths 0..9, arbitrary UTF-16 incl. lone surrogates, all BIT bytes, temporal lengths); "
         "fn 3 = ByteSize/LengthBytes/GoReflectType/String of all 256 codes; fn 4 = asetime helpers; thorough adds fn 9 = all 25.92M ticks of two days on the Go side. "
         "Values off the property's domain (tag offdomain/malformed) are compared with the model only. A case is non-trivial when its value is not NULL; distinct by (fn, input). "
